@@ -361,14 +361,27 @@ def r_output(ctx, model):
         if wf is None:
             raise AnalysisError(f"anchor vanished: {base_ref}.write_variables")
         intr[f"{owner}.write_variables"] = lambda ev, a, k: log.append(("tv" if a[0].cls == VOLBASE else "tp" if a[0].cls == PRSBASE else a[0].cls, a[1]))
-    for cfg, want in (({"pressure_base": "PB", "volume_base": "VB"}, {("tp", "PB"), ("tv", "VB")}), ({"pressure_base": "PB"}, {("tp", "PB")}),
-                      ({"volume_base": "VB"}, {("tv", "VB")}), ({}, set())):
+    # sections as a user writes them: plain keywords, aliases of one rule, and the same quantity requested again with options
+    PB = Tup(["cij", DictV({"keyword": "cij_s", "unit": "kbar", "fname": "cij_kbar.txt"}), "v", "V", "bm_VRH"], "list")
+    VB = Tup(["p", DictV({"keyword": "p", "unit": "kbar", "fname": "p_kbar.txt"}), "bm_V"], "list")
+    ev0_, _c0, _v0, _p0, _calls0 = setup(ctx, model)
+    base_intr = dict(ev0_.intr)
+    base_intr.update(intr)
+
+    def entries(v):
+        items = list(v.items) if isinstance(v, Tup) else [v]
+        return tuple((("dict",) + tuple(sorted((kk, str(vv)) for kk, vv in i.d.items()))) if isinstance(i, DictV) else i for i in items)
+    for cfg, want in (({"pressure_base": PB, "volume_base": VB}, [("tp", entries(PB)), ("tv", entries(VB))]), ({"pressure_base": PB}, [("tp", entries(PB))]),
+                      ({"volume_base": VB}, [("tv", entries(VB))]), ({}, [])):
         del log[:]
         calc.attrs["config"] = DictV({"output": DictV(cfg)})
-        ev = Ev(model, seeds, intr, ctx=ctx)
+        ev = Ev(model, seeds, base_intr, ctx=ctx)
         ev.call_def(f, model.mods["cij.core.calculator"], ref, [calc], {})
-        ctx.check(set(log) == want and len(log) == len(want), f"write_output with sections {sorted(cfg)}", model.where(ref, f), expected=str(sorted(want)), found=str(log),
-                  explanation="an output section is written through the wrong interface, twice, or not at all", key=f"write_output.{'+'.join(sorted(cfg)) or 'none'}")
+        got = [(b, entries(v)) for b, v in log]
+        ctx.check(sorted(got) == sorted(want), f"write_output with sections {sorted(cfg)}: every entry of a section reaches its interface, in order", model.where(ref, f),
+                  expected=str(sorted(want))[:300], found=str(sorted(got))[:300],
+                  explanation="an output section is written through the wrong interface, twice, or not at all - or entries of it (aliases, a second request "
+                              "of the same quantity with other options) are dropped or reordered before they reach the writer", key=f"write_output.{'+'.join(sorted(cfg)) or 'none'}")
     # write_variables: one writer.write per entry, in order, on this interface
     for cref, nm in ((VOLBASE, "tv"), (PRSBASE, "tp")):
         owner_, wf, _ = model.find_member(cref, "write_variables")
